@@ -168,7 +168,7 @@ func (f *tFile) cell() string {
 
 // ---- alphabets ----
 var (
-	tagKeys    = []string{"json", "xml", "valid", "protobuf", "form", "db", "gorm", "yaml", "validate", "binding", "v1", "_x", "K9", "bson", "a"}
+	tagKeys    = []string{"json", "xml", "valid", "protobuf", "form", "db", "gorm", "yaml", "validate", "binding", "v1", "_x", "K9", "bson", "a", "xvalid", "ejson", "mydb"} // some keys end with another key
 	valAlpha   = []string{"a", "b", "n", "x", "Z", "0", "1", "9", "_", ",", "=", "~", "|", "$", "\\", "'", ";", ":", ".", "(", ")", "/", "<", ">", "!", "@", "#", "%", "^", "&", "-", "+", " ", "[", "]", "{", "}", "?"}
 	valSpecial = []string{"$1", "${a}", "$", "\\d+", "\\\\", "|", "'a,b'", ";", "re='^\\d+$1x'", "to=1~10|必须在1到10之间", "required", "omitempty", "name,omitempty", "bytes,1,opt,name=id,proto3", "-", "@tag x", "in=(a/b)", "phone|手机号"}
 	fieldNames = []string{"Name", "Id", "Age", "Email", "CreatedAt", "XXX_unrecognized", "state", "sizeCache", "Data", "Items", "M", "F2", "名字", "Größe"}
@@ -229,7 +229,18 @@ func genTagComment(r *gal.Rng, f *tFile, old []tItem, crlf bool) tCmt {
 			n--
 		}
 	}
+	// a key that is the tail of an existing key, with that key's value: it is a NEW key and must be added
+	suffixOf := map[string]string{"xvalid": "valid", "ejson": "json", "mydb": "db"}
+	var tailAdd []tItem
+	for _, o := range old {
+		if sk, ok := suffixOf[o.K]; ok && !oldKeys[sk] {
+			tailAdd = []tItem{{sk, o.V}}
+		}
+	}
 	switch {
+	case tailAdd != nil && r.Chance(70):
+		inj = tailAdd
+		f.Add++
 	case len(old) == 0 || mode == 0: // add only
 		inj = genItems(r, r.Range(1, 3), oldKeys, !block)
 		f.Add++
@@ -347,7 +358,11 @@ func genFields(r *gal.Rng, f *tFile, nl, indent string) []tElem {
 
 // frame text the tool must not touch; several pieces look like annotated fields
 func genFrame(r *gal.Rng, nl string) string {
-	switch r.Intn(11) {
+	switch r.Intn(13) {
+	case 11: // empty declaration groups are valid Go
+		return r.Pick([]string{"type ()", "var ()", "const ()", "type (" + nl + ")", "var (" + nl + "\t// @tag a:\"b\"" + nl + ")"}) + nl
+	case 12: // a grouped type declaration whose first type is a struct without fields
+		return "type (" + nl + "\tE0 struct{}" + nl + "\tE1 struct {" + nl + "\t\tG int `json:\"g\"` // @tag a:\"b\"" + nl + "\t}" + nl + ")" + nl
 	case 0:
 		return "func (x *" + r.Pick(structNames) + ") Reset() { *x = " + r.Pick(structNames) + "{} }" + nl
 	case 1:
@@ -388,11 +403,17 @@ func genFile(r *gal.Rng, protoc bool) *tFile {
 		f.CJK = true
 	}
 	hdr += "package " + r.Pick([]string{"pb", "p", "v1"}) + nl + nl
-	switch r.Intn(3) {
+	switch r.Intn(4) {
 	case 0:
 		hdr += "import (" + nl + "\t\"sync\"" + nl + "\tpkg \"a/b/pkg\"" + nl + "\t\"time\"" + nl + ")" + nl + nl
 	case 1:
 		hdr += "import \"time\"" + nl + nl
+	case 2:
+		hdr += "import ()" + nl + nl
+	}
+	if r.Chance(8) { // a byte order mark: go/parser skips it, every offset still counts its three bytes
+		hdr = "\xef\xbb\xbf" + hdr
+		f.CJK = true
 	}
 	raw(hdr)
 	nStructs := r.Range(1, 4)
